@@ -371,7 +371,9 @@ class bpch2(bpch_base):
                                     'carbon', 'tracerid', 'scale', 'units'],
                                     delimiter=[9, 30, 10, 3, 9, 10, 41],
                                     autostrip=True, encoding='bytes'
-                                    ).view(np.recarray)
+                                    )
+        # a table with one line comes back as a rank-0 record
+        self._tdata = np.atleast_1d(self._tdata).view(np.recarray)
 
     def _getdiaginfo(self, path):
         dpath = os.path.join(os.path.dirname(path), 'diaginfo.dat')
@@ -381,7 +383,9 @@ class bpch2(bpch_base):
                                     'offset', 'category', 'comment'],
                                     delimiter=[9, 40, 100],
                                     autostrip=True, encoding='bytes'
-                                    ).view(np.recarray)
+                                    )
+        # a table with one line comes back as a rank-0 record
+        self._ddata = np.atleast_1d(self._ddata).view(np.recarray)
 
 # OFFSET    (I8 )  Constant to add to tracer numbers in order to distinguish
 #                  for the given diagnostic category, as stored in file
